@@ -16,7 +16,7 @@ def neutralize(obj: Any) -> Any:
             if k == "raise":
                 continue
             if k == "ends":
-                out[k] = [["ret"] for _ in v]
+                out[k] = [(["ret"] if e and e[0] == "raise" else list(e)) for e in v]     # ending by cancellation is no failure
                 continue
             if k == "end":
                 out[k] = ["ret"]
